@@ -527,6 +527,13 @@ class EntrezGeneId(ZeroBasedIntegerColumn):
     def __nullable_dict__(cls) -> Dict[str, None]:
         return {"0": None}
 
+    @classmethod
+    def __build__(cls, value: Any) -> Optional[int]:  # type: ignore[override]
+        # every spelling of zero ("00", "-0", " 0", ...) is the null value,
+        # so that the rendered "0" denotes the same value when read back
+        built = super(EntrezGeneId, cls).__build__(value)
+        return None if built == 0 else built
+
 
 class Strand(EnumColumn):
     """A column that represents the 'Strand' MAF column, where strand is either
